@@ -128,4 +128,13 @@ package reverse
 //@   modifies ghost.*
 //@   requires [index_within_the_batch] 0 <= i && i < len(results) && i < len(calls)
 
-//@ rule goroutine_roots prop=C11 assume=(*Provider).Listen:go#1,(*Caller).begin$2:go#1
+// the heartbeat watcher of a provider's long poll
+//@ func (*Caller).begin$2$1
+//@   prop C11 C10
+//@   nopanic
+//@   havoc
+//@   modifies ghost.*
+
+// assumed: dispatch itself (after its workers are done it only calls the remote proxy, which reports
+// failures as errors, and the user's OnError callback)
+//@ rule goroutine_roots prop=C11 assume=(*Provider).dispatch
